@@ -6,14 +6,6 @@ import CoseModel.Generated.Facts
 open CoseModel
 namespace C12
 
-theorem facts_labels :
-    Facts.consts.lookup "HeaderLabelPayloadHashAlgorithm" = some 258 ∧
-    Facts.consts.lookup "HeaderLabelPayloadPreimageContentType" = some 259 ∧
-    Facts.consts.lookup "HeaderLabelPayloadLocation" = some 260 ∧
-    Facts.consts.lookup "HeaderLabelContentType" = some 3 ∧
-    Facts.consts.lookup "AlgorithmSHA256" = some (-16) ∧ Facts.consts.lookup "AlgorithmSHA384" = some (-43) ∧
-    Facts.consts.lookup "AlgorithmSHA512" = some (-44) := by decide
-
 /-- digest lengths of the known hash algorithms -/
 theorem hash_sizes : hashSize (-16) = 32 ∧ hashSize (-43) = 48 ∧ hashSize (-44) = 64 := by decide
 
